@@ -76,7 +76,7 @@ C11_SPECS.append(dict(name='c11_laws_datetime_datetime', types=['i32', 'i32', 'i
                       scenario=lambda vals: {'kind': 'scalar_rel', 'a': {'kind': 'datetime', 'days': 0, 'secs': vals[0], 'off': _i8(vals[2])}, 'b': {'kind': 'datetime', 'days': 0, 'secs': vals[1], 'off': _i8(vals[3])}},
                       confirm=lambda vals: (lambda r: r.get('outcome') != 'ok' or bool(laws_broken(r)))))
 C11_SPECS.append(dict(name='c11_laws_date_datetime', types=['i8', 'i8', 'i32', 'i8'], desc='comparison laws for a date against a date-time (either side): symmetry, duality, antisymmetry, Equal exactly when ==',
-                      bounds={'date': 'base +- 2 days', 'date-time': 'base +- 2 days, any second of the day, whole-hour offsets -12..+14'},
+                      bounds={'date': 'base +- 1 day', 'date-time': 'base +- 1 day, any second of the day, whole-hour offsets -12..+14'},
                       scenario=lambda vals: {'kind': 'scalar_rel', 'a': {'kind': 'date', 'days': _i8(vals[0])}, 'b': {'kind': 'datetime', 'days': _i8(vals[1]), 'secs': vals[2], 'off': _i8(vals[3])}},
                       confirm=lambda vals: (lambda r: r.get('outcome') != 'ok' or bool(laws_broken(r)))))
 
